@@ -37,8 +37,27 @@ _PAUSE_FAILS_INSIDE_OVERRIDE = {
         [{"op": "read", "x": "r2", "var": 0}, {"op": "return", "e": {"var": "r2"}}]],
     "params": {"kinds": {}},
 }
-_EXTRA = [(1, dict(_base, name="pause-fails", p_nonasync=0.3, p_ctx_fault=0.5, p_with=0.45, p_item=0.6, p_read=0.25))]
+# a flush body that works under a scoped override of its own: entered and left inside the body, it must leave no trace -
+# tasks that run after the flush (and the next computation) read the values of their own enclosing overrides
+_FLUSH_OVERRIDES = {
+    "roots": [
+        [{"op": "with", "c": {"override": [1, 0, 150]}, "body": [
+            {"op": "yield", "x": "x1", "s": {"tuple": [
+                {"new": {"task": [{"op": "yield", "x": "a1", "s": {"new": {"item": [0, 1, {"set": 1}]}}},
+                                  {"op": "read", "x": "r1", "var": 0}, {"op": "return", "e": {"var": "r1"}}]}},
+                {"new": {"task": [{"op": "read", "x": "r0", "var": 1},
+                                  {"op": "yield", "x": "b1", "s": {"new": {"item": [1, 2, {"set": 2}]}}},
+                                  {"op": "read", "x": "r2", "var": 0}, {"op": "read", "x": "r3", "var": 1},
+                                  {"op": "return", "e": {"tuple": [{"var": "r2"}, {"var": "r3"}]}}]}}]}},
+            {"op": "read", "x": "r4", "var": 0}]},
+         {"op": "read", "x": "r5", "var": 0},
+         {"op": "return", "e": {"tuple": [{"var": "x1"}, {"var": "r4"}, {"var": "r5"}]}}],
+        [{"op": "read", "x": "r6", "var": 0}, {"op": "read", "x": "r7", "var": 1}, {"op": "return", "e": {"var": "r6"}}]],
+    "params": {"kinds": {"0": {"override": [0, 55], "probe": True}, "1": {"override": [1, 56], "raise": [1, 1003]}}},
+}
+_EXTRA = [(1, dict(_base, name="flush-overrides", p_flush_ctx=0.9, p_item=0.6, p_read=0.3, nkinds=2, p_flush_raise=0.25)),
+          (1, dict(_base, name="pause-fails", p_nonasync=0.3, p_ctx_fault=0.5, p_with=0.45, p_item=0.6, p_read=0.25))]
 
 mach.install(globals(), "C07", ("EvRead", "EvResume", "EvPause", "EvSched"), ("C07:",), PROFILES, n_quick=300,
-             n_thorough=25000, nontrivial=_nontrivial, level="proof", corpus=[_PAUSE_FAILS_INSIDE_OVERRIDE],
-             extra_gen=mach.extra_profiles(_EXTRA, 40, 3000))
+             n_thorough=25000, nontrivial=_nontrivial, level="proof", corpus=[_PAUSE_FAILS_INSIDE_OVERRIDE, _FLUSH_OVERRIDES],
+             extra_gen=mach.extra_profiles(_EXTRA, 70, 5000))
